@@ -718,6 +718,9 @@ def check_centroids(prog: Program, res: Result) -> None:
             for c in cs:
                 a = astq.bind_args(prog.func(gc), c).get("anchor_ind")
                 got = norm(astq.expand_at(fi.node, a, enclosing_stmt18(c))) if a is not None else None
+                if got is not None:
+                    import re as _re
+                    got = _re.sub(r"\[['\"](\w+)['\"]\]", r".\1", got)     # cfg["anchor_part"] and cfg.anchor_part read the same config key
                 if got != want:
                     ok, why = False, f"generate_centroids is called with anchor_ind=`{got}` (expected `{want}`)"
         res.ob(R, ok, fi.qualname, f"centroids = generate_centroids(instances, anchor_ind={want})", why, fi.where)
